@@ -200,7 +200,9 @@ HandleLostToken(me, s, in) == DoClaim(me, ToClaim(s), in, 2)
 
 (* ------------------------------------------------------------------ poll *)
 DoPoll(me, s, in) ==
-  IF s.conn = "Offline" \/ s.panic # "none" THEN Res(s, <<>>, <<>>)
+  IF s.panic # "none" THEN Res(s, <<>>, <<>>)
+  ELSE IF s.conn = "Offline"      \* the station does nothing; the PHY keeps buffering
+  THEN Res([s EXCEPT !.buf = @ \o in.rx, !.tail = IF in.rx # <<>> THEN in.partial ELSE (@ \/ in.partial)], <<>>, <<>>)
   ELSE LET sA == [(IF s.fsm = "Offline" THEN ToListen(s) ELSE s) EXCEPT !.buf = @ \o in.rx,
                      \* an incomplete telegram stays pending until further bytes complete it
                      !.tail = IF in.rx # <<>> THEN in.partial ELSE (@ \/ in.partial)] IN
